@@ -44,6 +44,8 @@ func genC08() *rapid.Generator[C08Case] {
 		ctx := bt.ProgCtx{Tables: c08Tables[:rapid.IntRange(1, 3).Draw(t, "ntables")], Parents: c14Parents[:rapid.IntRange(1, 2).Draw(t, "nparents")],
 			Fams: bt.AllFams, Keys: c14Keys, Quals: c14Quals, InvalidPct: 0, Admin: 7, Reads: 0}
 		crashPct := rapid.SampledFrom([]int{10, 25, 60}).Draw(t, "crashPct")
+		rctx := ctx
+		rctx.Admin = 40 // racers: mostly admin requests
 		first := C08Step{Op: bt.Op{K: "CreateTable", Table: ctx.Tables[0], Fams: []bt.FamDef{{Name: "f", GC: &bt.GC{K: "maxv", N: 2}}, {Name: "g"}}}}
 		step := rapid.Custom(func(t *rapid.T) C08Step {
 			s := C08Step{Op: bt.GenOp(ctx).Draw(t, "op")}
@@ -62,14 +64,16 @@ func genC08() *rapid.Generator[C08Case] {
 					}
 				}
 			}
-			// a tenth of the requests that rewrite the table metadata are parked there while a second admin request on the
+			// a fifth of the requests that rewrite the table metadata are parked there while a second admin request on the
 			// same table is issued: both are acknowledged, then the process dies
-			if (s.Op.K == "ModifyCF" || s.Op.K == "CreateTable") && rapid.IntRange(0, 9).Draw(t, "race") == 0 {
-				r := bt.GenOp(ctx).Draw(t, "racer")
+			if (s.Op.K == "ModifyCF" || s.Op.K == "CreateTable") && rapid.IntRange(0, 4).Draw(t, "race") == 0 {
+				r := bt.GenOp(rctx).Draw(t, "racer")
 				if r.K != "CreateTable" && r.K != "ModifyCF" && r.K != "DropRowRange" {
 					r = bt.Op{K: "DeleteTable"} // half of the racers: the table is deleted under the parked request
 				}
-				r.Table, r.Parent = s.Op.Table, s.Op.Parent
+				if rapid.IntRange(0, 2).Draw(t, "sameTable") != 0 { // else: whichever table the racer drew for itself
+					r.Table, r.Parent = s.Op.Table, s.Op.Parent
+				}
 				s.Racer = &r
 				s.Crash, s.Hit = rapid.SampledFrom([]string{"disk.SetTableMeta.start", "disk.SetTableMeta.tmpWritten", "disk.SetTableMeta.renamed"}).Draw(t, "rp"), 1
 			}
@@ -250,6 +254,9 @@ func runC08(c C08Case, ev *vt.Ev) *vt.Failure {
 				return nil
 			}
 			labels["second-request-while-metadata-rewrite-parked:"+st.Racer.K] = true
+			if st.Racer.FullName() != op.FullName() {
+				labels["second-request-on-another-table"] = true
+			}
 			if rr.Code == 0 && res.Code == 0 {
 				labels["both-concurrent-requests-acknowledged"] = true
 			}
@@ -381,7 +388,7 @@ func raceAt(s *bt.Srv, op *bt.Op) *racing {
 
 func TestC08(t *testing.T) {
 	vt.Prop[C08Case]{ID: "C08", Test: "TestC08",
-		Rule: "fault enumeration in-process: rapid-generated admin+data programs (5-40 requests over <=3 tables in <=2 parents: CreateTable with GC rules, ModifyColumnFamilies create/update/drop, DeleteTable, re-create, MutateRow(s), ReadModifyWrite, CheckAndMutate, DropRowRange prefix/all) on the disk engine with a crash decision per request: kill right after the response, or at the 1st/2nd hit of a guarded crash point inside the request (SetTableMeta start / temp file written / renamed, Create after the metadata write, Clear after close / after reopen, directory removed); a crash = stable point-in-time copy of the storage root on which a NEW server is started (repeated cycles); a tenth of the metadata-rewriting requests are instead parked at one of the SetTableMeta points while a second request on the same table (DeleteTable, ModifyColumnFamilies, DropRowRange or CreateTable) runs until it is answered or blocked, then both finish and the process is killed; oracle = registry/data model of acknowledged requests (for a concurrent pair: the serial order that explains both responses), an in-flight request must be wholly present or wholly absent; non-trivial = a restart after >=1 admin change and >=3 data writes",
+		Rule: "fault enumeration in-process: rapid-generated admin+data programs (5-40 requests over <=3 tables in <=2 parents: CreateTable with GC rules, ModifyColumnFamilies create/update/drop, DeleteTable, re-create, MutateRow(s), ReadModifyWrite, CheckAndMutate, DropRowRange prefix/all) on the disk engine with a crash decision per request: kill right after the response, or at the 1st/2nd hit of a guarded crash point inside the request (SetTableMeta start / temp file written / renamed, Create after the metadata write, Clear after close / after reopen, directory removed); a crash = stable point-in-time copy of the storage root on which a NEW server is started (repeated cycles); a fifth of the metadata-rewriting requests are instead parked at one of the SetTableMeta points while a second request on the same table (two thirds) or on any table of the program (DeleteTable, ModifyColumnFamilies, DropRowRange or CreateTable) runs until it is answered or blocked, then both finish and the process is killed; oracle = registry/data model of acknowledged requests (for a concurrent pair: the serial order that explains both responses), an in-flight request must be wholly present or wholly absent; non-trivial = a restart after >=1 admin change and >=3 data writes",
 		Gen:  genC08(), Run: runC08}.Main(t)
 }
 
